@@ -7,7 +7,7 @@ emitter of DeleteRowSet also emits DeleteDV (paired tombstones).
 Does not decide: content of replayed records, vacuum of directories."""
 import re
 
-from tmpl import site, suffix, pl_fields
+from tmpl import site, suffix, pl_fields, done_sites, local_defs
 
 SEC = 'storage::secondary::'
 BOOT = SEC + 'storage::<impl storage::secondary::SecondaryStorage>::bootstrap'
@@ -197,4 +197,65 @@ def run(ctx):
             missing = [v for v in variants if v not in names]
             ctx.ob(R5, f'{a}·variants', not missing, f'{a}: variants {len(variants)}; not serialized: {missing}', [b.loc])
     ctx.floor(R5, n5, 8, 'types serialized into the manifest')
+    commit_publishes_rule(ctx, prog, 'C03-R7')
 
+
+def commit_publishes_rule(ctx, prog, rid):
+    """shared by C03 and C05: a commit that returns Ok has published everything the transaction wrote"""
+    CI = 'storage::secondary::transaction::SecondaryTransaction::commit_inner::{closure#0}'
+    MEMC = '<storage::memory::transaction::InMemoryTransaction as storage::Transaction>::commit::{closure#0}'
+    ctx.rule(rid, 'commit means published, in both engines: every successful return of SecondaryTransaction::commit_inner is '
+                  'dominated by the completion of VersionManager::commit_changes, unless that path tested all three write buffers '
+                  '(to_be_committed_rowsets, delete_buffer, and mem / total_size) for emptiness; InMemoryTransaction::commit drains '
+                  'both of its buffers. An early return that forgets one buffer acknowledges a statement whose rows the disk '
+                  'engine drops while the memory engine keeps them')
+    b = prog.body(CI)
+    if ctx.anchor(rid, CI, b is not None):
+        ctx.functions_analysed.add(b.name)
+        cc = set(done_sites(prog, b, 'VersionManager::commit_changes'))
+        if ctx.anchor(rid, 'commit_inner: commit_changes', cc):
+            errs = b.error_exit_blocks()
+            rets = [r for r in b.return_blocks()]
+            # blocks that set _0 = Ok(..) and reach a return without commit_changes
+            early = sorted(x for x in b.reachable_from([0], avoid=cc | errs) if x in rets)
+            ok = True
+            why = ''
+            if early:
+                # which buffers does the skipping path look at?  (switches on the entry->return paths that avoid commit_changes)
+                fwd = b.reachable_from([0], avoid=cc | errs)
+                region = {x for x in fwd if set(rets) & b.reachable_from([x], avoid=cc | errs)}   # blocks on a skipping path
+                seen = set()
+                for i in region:
+                    for st in b.blocks[i]['stmts']:
+                        for pl in __places(st):
+                            for f in pl_fields(pl):
+                                if f.startswith('storage::secondary::transaction::SecondaryTransaction::'):
+                                    seen.add(f.rsplit('::', 1)[-1])
+                need = {'to_be_committed_rowsets', 'delete_buffer'}
+                mem = {'mem', 'total_size'} & seen
+                ok = need <= seen and bool(mem)
+                why = f'; the path that skips it reads {sorted(seen)}; it must test to_be_committed_rowsets, delete_buffer and mem/total_size'
+            ctx.ob(rid, 'commit_inner·Ok⇒commit_changes', ok,
+                   f'successful returns of commit_inner reachable without completing commit_changes: {early}{why}',
+                   [site(b, x) for x in (early or sorted(cc))],
+                   what='SecondaryTransaction::commit_inner can return Ok without commit_changes on a path that does not look at every '
+                        'write buffer: an acknowledged INSERT/DELETE is dropped by the disk engine')
+    m = prog.body(MEMC)
+    if ctx.anchor(rid, MEMC, m is not None):
+        ctx.functions_analysed.add(m.name)
+        drained = set()
+        for c in m.calls:
+            if re.search(r'Vec::<.*>::drain$|IntoIterator::into_iter$|mem::take', c.name or '') and c.args and c.args[0]['k'] != 'const':
+                for bb, kind, payload in local_defs(m, c.args[0]['pl']['l']):
+                    if kind == 'assign':
+                        for pl in __places(payload):
+                            for f in pl_fields(pl):
+                                if f.startswith('storage::memory::transaction::InMemoryTransaction::'):
+                                    drained.add(f.rsplit('::', 1)[-1])
+        ctx.ob(rid, 'memory-commit·drains-both-buffers', {'buffer', 'delete_buffer'} <= drained,
+               f'InMemoryTransaction::commit drains {sorted(drained)}; expected buffer and delete_buffer')
+
+
+def __places(x):
+    from mir import operand_places
+    return operand_places(x)
